@@ -61,7 +61,9 @@ __attribute__((used, visibility("default"))) const char *__ubsan_default_options
 #endif
 #if defined(LESIM_TSAN)
 __attribute__((used, visibility("default"))) const char *__tsan_default_options() {
-  return "halt_on_error=0:report_signal_unsafe=0:exitcode=0:second_deadlock_stack=0:history_size=4";
+  // deadly signals are not reported by the runtime (its report path takes allocator locks inside the signal handler and
+  // can dead-lock): the process dies of the signal and the driver classifies the exit status
+  return "halt_on_error=0:report_signal_unsafe=0:exitcode=0:second_deadlock_stack=0:history_size=4:handle_segv=0:handle_sigbus=0:handle_abort=0:handle_sigill=0:handle_sigfpe=0";
 }
 #endif
 int __sanitizer_get_ownership(const volatile void *p) __attribute__((weak));
@@ -707,8 +709,15 @@ static json spawn_tool(const json &op) {
   json r = json::object();
   std::vector<std::string> args; for (auto &a : op["argv"]) args.push_back(subst_in(u2b(a.get<std::string>())));
   std::vector<std::string> envs;
-  for (char **e = environ; *e; e++) { if (strncmp(*e, "ECONFTOOL_ROOT=", 15) && strncmp(*e, "ASAN_OPTIONS=", 13)) envs.push_back(*e); }
-  if (op.contains("env")) for (auto it = op["env"].begin(); it != op["env"].end(); ++it) envs.push_back(it.key() + "=" + subst_in(u2b(it.value().get<std::string>())));
+  // inherited environment minus everything the plan sets itself (a name given twice would keep its FIRST, inherited, value);
+  // a null value means "not set"
+  for (char **e = environ; *e; e++) {
+    const char *eq = strchr(*e, '='); std::string key = eq ? std::string(*e, eq - *e) : std::string(*e);
+    if (key == "ECONFTOOL_ROOT" || key == "ASAN_OPTIONS") continue;
+    if (op.contains("env") && op["env"].contains(key)) continue;
+    envs.push_back(*e);
+  }
+  if (op.contains("env")) for (auto it = op["env"].begin(); it != op["env"].end(); ++it) { if (it.value().is_null()) continue; envs.push_back(it.key() + "=" + subst_in(u2b(it.value().get<std::string>()))); }
   std::vector<char *> av, ev; for (auto &a : args) av.push_back((char *)a.c_str()); av.push_back(nullptr);
   for (auto &e : envs) ev.push_back((char *)e.c_str()); ev.push_back(nullptr);
   int po[2], pe[2]; if (pipe2(po, O_CLOEXEC) || pipe2(pe, O_CLOEXEC)) { r["err"] = "pipe"; return r; }
@@ -823,8 +832,15 @@ static json exec_op(TaskCtx *t, const json &op) {
     r["rc"] = (int)rc; r["out"] = ptr_state(kf); put_slot(t, oi, kf);
   } else if (o == "merge") {
     econf_file *m = sentinel ? SENTINEL : nullptr; econf_file *a = slot(t, op, "usr"), *b = slot(t, op, "etc");
+    // the caller's result variable may still hold one of the inputs when the call is made (cfg = merge(cfg, next)
+    // written as econf_mergeFiles(&cfg, cfg, next) while another handle on the input is kept): it is an OUT parameter
+    std::string rinit = op.value("init", "null");
+    if (rinit == "usr") m = a; else if (rinit == "etc") m = b;
     econf_err rc; { LibCall L; rc = econf_mergeFiles(&m, a, b); }
-    r["rc"] = (int)rc; r["out"] = ptr_state(m); put_slot(t, oi, m);
+    r["rc"] = (int)rc; r["out"] = ptr_state(m);
+    if (rc == ECONF_SUCCESS && (m == a || m == b)) { r["aliased"] = true; m = nullptr; }     // an input came back as the result
+    if (rc != ECONF_SUCCESS && (m == a || m == b)) m = nullptr;
+    put_slot(t, oi, m);
   } else if (o == "write") {
     econf_file *kf = slot(t, op, "k"); STR(dir); STR(name);
     econf_err rc; { LibCall L; rc = econf_writeFile(kf, dir.c(), name.c()); }
